@@ -454,6 +454,38 @@ def gen_sample(R, rng):
     return parts
 
 
+def explicit_isotope_samples(R, rng):
+    """every isotope that has activation rows, named explicitly in the formula (exhaustive: this includes the
+    isotopes that do not occur in nature – natural abundance 0 – but are tabulated, such as Tc-98 and Au-198),
+    alone or next to a natural element, under either abundance function"""
+    out = []
+    els = sorted({z for z, _ in R.isotopes})
+    for z, a in R.isotopes:
+        atoms = [(1, (z, a, 0))]
+        r = rng.random()
+        if r < 0.3:
+            atoms.append((rng.choice([1, 2, 0.5]), (rng.choice(els), 0, 0)))
+        elif r < 0.4:
+            atoms.insert(0, (rng.choice([1, 3]), (z, 0, 0)))
+        mass, fl, cd, fr, t = AC.gen_env(rng)
+        out.append((atoms, mass, fl, cd, fr, t, AC.gen_rests(rng), rng.choice(["NIST2001", "NIST2001", "IAEA1987"])))
+    return out
+
+
+def show_tables(s, rng):
+    """Sample.show_table() twice, output discarded -> ('ok'|'err', error name, cutoff)"""
+    import contextlib
+    import io
+    cutoff = rng.choice([0.0, 0.0001, 1e-12, 1.0])
+    try:
+        with contextlib.redirect_stdout(io.StringIO()):
+            s.show_table(cutoff=cutoff)
+            s.show_table()
+    except Exception as e:  # noqa
+        return ("err", type(e).__name__, cutoff)
+    return ("ok", None, cutoff)
+
+
 def check_samples(run: Run, R, n, activation):
     from .. import pyside
     from periodictable import core
@@ -465,6 +497,7 @@ def check_samples(run: Run, R, n, activation):
         rests = AC.gen_rests(run.rng)
         abund = run.rng.choice(["NIST2001", "IAEA1987"])
         cases.append((atoms, mass, fl, cd, fr, t, rests, abund))
+    cases += explicit_isotope_samples(R, run.rng)
     outs = []
     for atoms, mass, fl, cd, fr, t, rests, abund in cases:
         fn = activation.NIST2001_isotopic_abundance if abund == "NIST2001" else activation.IAEA1987_isotopic_abundance
@@ -500,20 +533,37 @@ def check_samples(run: Run, R, n, activation):
                 env.fluence, env.Cd_ratio, env.fast_ratio = keep
                 s.mass = mass
             s.calculate_activation(env, exposure=t, rest_times=rests, abundance=fn)
+            # the sample is reported (twice) before its activities are read: a report changes no activity
+            stored = [(R.index_of[id(k)], list(v)) for k, v in s.activity.items()]
+            shown = show_tables(s, run.rng)
             py = ("ok", [(R.index_of[id(k)], list(v)) for k, v in s.activity.items()],
                   [(R.index_of[id(k)], v) for k, v in getattr(s, "_activity_at_removal", {}).items()])
         except Exception as e:  # noqa
             py = ("err", type(e).__name__)
-        outs.append((py, parts, env, f))
+            stored = shown = None
+        outs.append((py, parts, env, f, stored, shown))
         reqs += [AC.calc_line(mass, fl, cd, fr, t, rests, parts), "table", "removal"]
     reps = run_driver("activation", reqs)
-    for ci, (case, (py, parts, env, f)) in enumerate(zip(cases, outs)):
+    for ci, (case, (py, parts, env, f, stored, shown)) in enumerate(zip(cases, outs)):
         atoms, mass, fl, cd, fr, t, rests, abund = case
         rep, tab, rem = reps[3 * ci:3 * ci + 3]
         inp = dict(atoms=[(c, list(k)) for c, k in atoms], mass=mass, fluence=fl, Cd_ratio=cd, fast_ratio=fr,
                    exposure=t, rest_times=rests, abundance=abund)
         nt = py[0] == "ok" and len(py[1]) > 1 and sum(len(p[1]) for p in parts) > 1
-        run.count(key=repr(case), nontrivial=nt, sample=inp, tag="stream:sample")
+        run.count(key=repr(case), nontrivial=nt, sample=inp, tag="stream:sample" if ci < n else "stream:sample-explicit-isotope")
+        if py[0] == "ok" and shown is not None:
+            if shown[0] == "err":
+                run.violation("show_table(cutoff=%r) of an activated sample raised %s" % (shown[2], shown[1]),
+                              dict(inp, sequence="calculate_activation; show_table; show_table", cutoff=shown[2]),
+                              error=shown[1], reaction="act", clause="show_table", condition="none")
+            if stored != py[1]:
+                bad = next((i for (i, v), (j, w) in zip(stored, py[1]) if i != j or v != w), None)
+                run.violation("Sample.activity read after show_table() differs from the activities that "
+                              "calculate_activation stored",
+                              dict(inp, sequence="calculate_activation; show_table; show_table; read Sample.activity",
+                                   cutoff=shown[2], row=bad, before=stored, after=py[1]),
+                              reaction=R.fields(bad)["reaction"] if bad is not None else "act",
+                              clause="show_table", condition="none")
         if rep.startswith("err"):
             if py != ("err", rep.split()[1]):
                 run.disagree("calculate_activation", inp, rep, py[:1])
@@ -620,6 +670,153 @@ def private_table_edits(run: Run):
                       dict(step="private-table"), clause="error", reaction="-", condition="private-table")
 
 
+RELOAD_ENVS = [(1.0, 1e8, 70.0, 50.0, 10.0, (0.0, 1.0, 24.0)), (2.5, 1e13, 0.0, 0.0, 100.0, (0.0, 360.0))]
+
+
+def table_products(R, activation, table, z, a, mass, fl, cd, fr, t, rests):
+    """activity() for isotope (z, a) of `table` -> ('ok', {(daughter, reaction text, fast): summed activities},
+    number of entries) | ('err', name); products are named by the columns of their row, not by object"""
+    env = activation.ActivationEnvironment(fluence=fl, Cd_ratio=cd, fast_ratio=fr)
+    try:
+        res = activation.activity(table[z][a], mass, env, t, list(rests))
+        out = {}
+        for k, v in res.items():
+            key = (k.daughter, k.reaction, bool(k.fast))
+            cur = out.get(key, [Fraction(0)] * len(rests))
+            out[key] = [c + Fraction(x) for c, x in zip(cur, v)]
+        return ("ok", out, len(res))
+    except Exception as e:  # noqa
+        return ("err", type(e).__name__)
+
+
+def sample_products(activation, table, text, mass, fl, cd, fr, t, rests):
+    """Sample(text parsed against `table`).calculate_activation -> the same shape as table_products"""
+    from periodictable.formulas import formula
+    env = activation.ActivationEnvironment(fluence=fl, Cd_ratio=cd, fast_ratio=fr)
+    try:
+        s = activation.Sample(formula(text, table=table), mass)
+        s.calculate_activation(env, exposure=t, rest_times=list(rests))
+        out = {}
+        for k, v in s.activity.items():
+            key = (k.isotope, k.daughter, k.reaction, bool(k.fast))
+            cur = out.get(key, [Fraction(0)] * len(rests))
+            out[key] = [c + Fraction(x) for c, x in zip(cur, v)]
+        return ("ok", out, len(s.activity))
+    except Exception as e:  # noqa
+        return ("err", type(e).__name__)
+
+
+def same_products(p, q):
+    if p[0] != "ok" or q[0] != "ok":
+        return p[0] == q[0] and p[1] == q[1]
+    return p[2] == q[2] and set(p[1]) == set(q[1]) and all(
+        close(float(x), float(y), rel=1e-12, abs_=FLOOR) for k in p[1] for x, y in zip(p[1][k], q[1][k]))
+
+
+def show_products(p):
+    if p[0] != "ok":
+        return list(p)
+    return dict(entries=p[2], products={"/".join(map(str, k)): [float(x) for x in v] for k, v in sorted(p[1].items())})
+
+
+def reload_checks(run: Run, R, activation, table, label, edit):
+    """activation.init(table, reload=True) on a table whose activation data are already loaded (and, with `edit`,
+    have been revised by hand): afterwards every isotope serves exactly its rows of activation.dat with the
+    tabulated numbers again, and activity() / Sample.calculate_activation give every product once, with the
+    activity it had on the first load."""
+    rng = run.rng
+    samples = ["Co30Fe70", "Au", "D2O", "NaCl", "WO3", "TcAu"]
+    try:
+        std = R.pt.elements
+        # reference: the standard table as loaded once (the loader sweep has tied it to activation.dat)
+        picks = list(R.isotopes)
+        envs = {k: RELOAD_ENVS[rng.randrange(len(RELOAD_ENVS))] for k in picks}
+        ref = {k: table_products(R, activation, std, k[0], k[1], *envs[k]) for k in picks}
+        sref = {f: sample_products(activation, std, f, *RELOAD_ENVS[0]) for f in samples}
+        if edit:
+            for el in table:
+                for iso in el:
+                    for rec in getattr(iso, "neutron_activation", ()) or ():
+                        if rng.random() < 0.5:
+                            rec.thermalXS = rec.thermalXS * 2.0 + 1.0
+                            rec.Thalf_hrs = rec.Thalf_hrs * 3.0
+        n_reload = rng.choice([1, 2])
+        for _ in range(n_reload):
+            activation.init(table, reload=True)
+    except Exception as e:  # noqa
+        run.violation("activation.init(table, reload=True) raised %s" % type(e).__name__,
+                      dict(step="reload", table=label), clause="error", reaction="-", condition="reload")
+        return
+    seq = "activation.init(%s table)%s; %d x activation.init(table, reload=True)" % (
+        label, "; records revised in place" if edit else "", n_reload)
+    for (z, a) in picks:
+        rows = R.rows_of[(z, a)]
+        f0 = R.fields(rows[0])
+        run.count(key=("reload", label, z, a), nontrivial=True, tag="stream:reload-" + label)
+        try:
+            recs = list(getattr(table[z][a], "neutron_activation", ()))
+        except Exception as e:  # noqa
+            recs = []
+        inp = dict(sequence=seq, table=label, z=z, a=a, isotope=f0["isotope"])
+        if len(recs) != len(rows):
+            run.violation("after reload the isotope serves %d activation records for its %d rows of activation.dat"
+                          % (len(recs), len(rows)), dict(inp, records=len(recs), rows=len(rows)),
+                          reaction=f0["reaction"], clause="data", condition="reload")
+        else:
+            for i, rec in zip(rows, recs):
+                f = R.fields(i)
+                badf = [nm for nm in AC.FIELD_NAMES if not close(getattr(rec, nm), f[nm], rel=1e-15)]
+                if badf or rec.daughter != f["daughter"] or bool(rec.fast) != f["fast"]:
+                    run.violation("after reload a record differs from its row of activation.dat (%s)"
+                                  % ", ".join(badf or ["daughter/fast"]),
+                                  dict(inp, row=i, daughter=f["daughter"], fields=badf,
+                                       got=[getattr(rec, nm) for nm in badf], expected=[f[nm] for nm in badf]),
+                                  reaction=f["reaction"], clause="data", condition="reload")
+                    break
+        mass, fl, cd, fr, t, rests = envs[(z, a)]
+        got = table_products(R, activation, table, z, a, mass, fl, cd, fr, t, rests)
+        if not same_products(ref[(z, a)], got):
+            run.violation("activity() of an isotope after activation.init(table, reload=True) differs from the "
+                          "activities of its tabulated reactions (each product once)",
+                          dict(inp, mass=mass, fluence=fl, Cd_ratio=cd, fast_ratio=fr, exposure=t,
+                               rest_times=list(rests), expected=show_products(ref[(z, a)]), got=show_products(got)),
+                          reaction=f0["reaction"], clause="value", condition="reload")
+    mass, fl, cd, fr, t, rests = RELOAD_ENVS[0]
+    for text in samples:
+        got = sample_products(activation, table, text, mass, fl, cd, fr, t, rests)
+        run.count(key=("reload-sample", label, text), nontrivial=True, tag="stream:reload-" + label)
+        if not same_products(sref[text], got):
+            run.violation("Sample.activity after activation.init(table, reload=True) differs from the activities "
+                          "before the reload",
+                          dict(sequence=seq, table=label, formula=text, mass=mass, fluence=fl, Cd_ratio=cd,
+                               fast_ratio=fr, exposure=t, rest_times=list(rests),
+                               expected=show_products(sref[text]), got=show_products(got)),
+                          reaction="act", clause="natural", condition="reload")
+
+
+def private_reload(run: Run, R, activation):
+    """a private table, loaded, revised by hand, then reloaded"""
+    from periodictable import core, mass, density
+    try:
+        T = core.PeriodicTable("c14-reload-%d" % (id(run) % 100000))
+        mass.init(T)
+        density.init(T)
+        activation.init(T)
+    except Exception as e:  # noqa
+        run.violation("initialising activation data of a private table raised %s" % type(e).__name__,
+                      dict(step="private-table"), clause="error", reaction="-", condition="private-table")
+        return
+    reload_checks(run, R, activation, T, "private", edit=True)
+
+
+def public_reload(run: Run, activation):
+    """last step of the run: the standard table is reloaded; the loader sweep and the activities hold as before"""
+    R = AC.Rows()
+    reload_checks(run, R, activation, R.pt.elements, "standard", edit=False)
+    R2 = AC.Rows()          # the records the isotopes serve now
+    loader_sweep(run, R2)
+
+
 def run(run: Run) -> int:
     import_repo()
     from periodictable import activation
@@ -639,6 +836,8 @@ def run(run: Run) -> int:
             check_cases(run, R, cases[i:i + 20000], pool, activation)
         check_samples(run, R, 400 if quick else 10000, activation)
         fluence_types(run, R, activation)
+        private_reload(run, R, activation)
+        public_reload(run, activation)
     finally:
         pool.close()
     run.exhaustive = True   # every row of activation.dat, every isotope with rows x the grid
